@@ -134,6 +134,22 @@ where
     }
 }
 
+#[cfg(feature = "verif-hooks")]
+impl<C, R: Default> CodecRegion<C, R> {
+    /// Verification hook: an empty region around a given codec state.
+    pub fn verif_with_codec(codec: C) -> Self {
+        Self {
+            inner: R::default(),
+            codec,
+        }
+    }
+
+    /// Verification hook: the inner region (stored, encoded bytes).
+    pub fn verif_inner(&self) -> &R {
+        &self.inner
+    }
+}
+
 impl<C: Codec, R> Push<&[u8]> for CodecRegion<C, R>
 where
     for<'a> R: Region<ReadItem<'a> = &'a [u8]> + Push<&'a [u8]> + 'a,
@@ -275,6 +291,37 @@ mod dictionary {
 
         fn heap_size<F: FnMut(usize, usize)>(&self, _callback: F) {
             // Lazy
+        }
+    }
+
+    #[cfg(feature = "verif-hooks")]
+    impl DictionaryCodec {
+        /// Verification hook: a codec whose tables hold exactly one entry, `entry` at `tag`, built through the real
+        /// `BytesMap::push` (tags below `tag` unassigned) and one map insertion, i.e. a state satisfying the
+        /// representation invariant `decode[tag] == entry <=> encode[entry] == tag` that `new_from` establishes.
+        pub fn verif_with_entry(tag: u8, entry: &[u8]) -> Self {
+            let mut decode = BytesMap::default();
+            for t in 0..=tag {
+                if t == tag {
+                    decode.push(Some(entry));
+                } else {
+                    decode.push(None);
+                }
+            }
+            let mut encode = BTreeMap::new();
+            encode.insert(entry.to_vec(), tag);
+            Self {
+                encode,
+                decode,
+                stats: (MisraGries::default(), [0u64; 4]),
+                bytes: 0,
+                total: 0,
+            }
+        }
+
+        /// Verification hook: `(number of encode entries, number of decode slots)`.
+        pub fn verif_table_sizes(&self) -> (usize, usize) {
+            (self.encode.len(), self.decode.len())
         }
     }
 }
